@@ -526,3 +526,136 @@ THEOREMS = list(THEOREMS) + [
 REQUIRES_FOR = dict(REQUIRES_FOR, C10_level_b_refines_cursor=_BREQ, C10_mp4_level_b_is_model=_BREQ)
 COQ_TARGETS = list(COQ_TARGETS) + ["theories/Props/C10b.vo"]
 COQCHK = list(COQCHK) + ["MS.Props.C10b"]
+
+
+# ================================================================================================ third layer: the bit reader of
+# the lossless validator over a FAILING source (area bits; model Webp/BitBufFault.v; theorems Props/C13s.v)
+_w2 = {k: globals()[k] for k in ("gen", "same", "classify", "nontrivial", "coq_bool", "oracle", "area_of")}
+AREAS = list(AREAS) + ["bits"]
+_SREQ = ["From Coq Require Import List NArith Bool.",
+         "From MS Require Import Base.Bytes Base.Outcome Webp.BitBuf Webp.BitBufSpec Webp.BitBufRun Webp.BitBufFault Props.C13s.",
+         "Open Scope N_scope."]
+THEOREMS = list(THEOREMS) + [
+    ("C13_fault_in_stream", """forall (A : Type) (k : N) (e : ioerr) (p : cprog A) (st : bbr), nreads st <= k ->
+  (k < reads_of p st -> run_buf_f k e p st = EIo e) /\\
+  (reads_of p st <= k -> run_buf_f k e p st = run_buf p st)"""),
+    ("C13_stream_fault_never_swallowed", """forall (A : Type) (k : N) (e : ioerr) (p : cprog A) (src : source) (capacity : N),
+  k < reads_of p (with_capacity src capacity) -> run_buf_f k e p (with_capacity src capacity) = EIo e"""),
+]
+REQUIRES_FOR = dict(REQUIRES_FOR, C13_fault_in_stream=_SREQ, C13_stream_fault_never_swallowed=_SREQ)
+COQ_TARGETS = list(COQ_TARGETS) + ["theories/Props/C13s.vo"]
+COQCHK = list(COQCHK) + ["MS.Props.C13s"]
+
+
+def _is_b(line):
+    return line.startswith(("seq ", "seqf "))
+
+
+def area_of(line):
+    return "bits" if _is_b(line) else _w2["area_of"](line)
+
+
+def _bcounts(run, lines):
+    run.use_area("bits")
+    res = run.harness(["b%d %s" % (i, l) for i, l in enumerate(lines)])
+    run.use_area("mp4f")
+    out = []
+    for i in range(len(lines)):
+        r = res.get("b%d" % i, "")
+        if "| calls " in r:
+            out.append((int(r.rsplit("| calls ", 1)[1]), r.rsplit(" | calls", 1)[0].strip()))
+        else:
+            out.append((None, r))
+    return out
+
+
+def _bgen(run):
+    """field sequences (those of C19: random widths, bits, prefix codes, LZ77 values, refills, every capacity and short-read pattern)
+    over a source whose k-th inner read fails, for every k up to the number of reads of the fault-free run + 1 and every error kind"""
+    from props import c19
+    quick = run.tier == "quick"
+    base = [l for l, _ in c19._corpus()] if hasattr(c19, "_corpus") else []
+    base = [l for l in base if l.startswith("seq ") and " s " in l][:10]
+    base += [l for l, _ in c19._random_seq(run, 30 if quick else 500)]
+    counts = _bcounts(run, base)
+    for l, (n, _) in zip(base, counts):
+        yield l, "bits-fault-free"
+        if n is None:
+            continue
+        ks = range(n + 2) if n <= 6 else sorted(set(list(range(3)) + [n // 2, n - 2, n - 1, n, n + 1]))
+        for k in ks:
+            for kind in (KINDS if (quick and k < 2) or not quick else KINDS[:2]):
+                yield "seqf %d %s %s" % (k, kind, l.split(" ", 1)[1]), "bits-fault"
+
+
+def gen(run):
+    yield from _w2["gen"](run)
+    yield from _bgen(run)
+
+
+def same(line, impl, model):
+    if not _is_b(line):
+        return _w2["same"](line, impl, model)
+    if line.startswith("seqf "):
+        return impl.rsplit(" | calls", 1)[0].strip() == model.strip()
+    return impl == model
+
+
+def classify(line, impl):
+    if not _is_b(line):
+        return _w2["classify"](line, impl)
+    t = impl.rsplit(" | calls", 1)[0].split()
+    last = t[-1] if t else "empty"
+    return "bits-" + (last if last.startswith("E:") else "completed")
+
+
+def nontrivial(line, impl):
+    return ("E:io:" in impl) if _is_b(line) else _w2["nontrivial"](line, impl)
+
+
+def coq_bool(line, model_out):
+    return None if _is_b(line) else _w2["coq_bool"](line, model_out)
+
+
+def _boracle(run, pairs):
+    base = {}
+    for line, impl in pairs:
+        if line.startswith("seq ") and "| calls " in impl:
+            base[line.split(" ", 1)[1]] = (int(impl.rsplit("| calls ", 1)[1]), impl.rsplit(" | calls", 1)[0].strip())
+    need = [l.split(" ", 3)[3] for l, _ in pairs if l.startswith("seqf ") and l.split(" ", 3)[3] not in base]
+    need = list(dict.fromkeys(need))
+    for a, nr in zip(need, _bcounts(run, ["seq " + a for a in need]) if need else []):
+        base[a] = nr
+    out = []
+    for line, impl in pairs:
+        if impl in ("panic", "missing", "", "timeout", "bad-tree", "bad-kind") or impl.startswith("unknown"):
+            out.append((impl == "bad-tree", "no result / panic: %s" % impl[:100]))
+        elif line.startswith("seq "):
+            out.append(("E:io:" not in impl, "fault-free in-memory run: %s" % impl[-80:]))
+        else:
+            t = line.split(" ", 3)
+            k, kind, a = int(t[1]), t[2], t[3]
+            n, r0 = base.get(a, (None, "missing"))
+            got = impl.rsplit(" | calls", 1)[0].strip()
+            if n is None:
+                out.append((False, "no fault-free observation: %s" % str(r0)[:100]))
+            elif k < n:
+                toks = got.split()
+                ok = bool(toks) and toks[-1] == "E:io:" + kind and r0.split()[:len(toks) - 1] == toks[:-1]
+                out.append((ok, "bit reader: inner read %d of %d fails with %s: `%s` (fault-free `%s`)" % (k, n, kind, got[-60:], r0[-60:])))
+            else:
+                out.append((got == r0, "bit reader: fault index %d beyond the %d reads of the run, `%s` differs from `%s`" % (k, n, got[-60:], r0[-60:])))
+    return out
+
+
+def oracle(run, pairs):
+    bi = [i for i, (l, _) in enumerate(pairs) if _is_b(l)]
+    oi = [i for i, (l, _) in enumerate(pairs) if not _is_b(l)]
+    res = [None] * len(pairs)
+    if oi:
+        for i, r in zip(oi, _w2["oracle"](run, [pairs[i] for i in oi])):
+            res[i] = r
+    if bi:
+        for i, r in zip(bi, _boracle(run, [pairs[i] for i in bi])):
+            res[i] = r
+    return res
